@@ -80,6 +80,7 @@ def one_run(cmd, base, prog, flags, env=None, prep=None, cwd_removed=False, tmo=
     argv = cmd + flags
     root = d
     tmpfs_kb = cwd_removed[1] if isinstance(cwd_removed, tuple) else None
+    tmpfs_fill = isinstance(cwd_removed, tuple) and len(cwd_removed) > 2 and cwd_removed[2]
     if tmpfs_kb:
         # a real device of tmpfs_kb KiB: the compiler runs in a private mount namespace with a small tmpfs as
         # working directory (the source lies outside); what it left there is copied out before the namespace ends
@@ -87,7 +88,8 @@ def one_run(cmd, base, prog, flags, env=None, prep=None, cwd_removed=False, tmo=
         root = os.path.join(d, "saved")
         arg = src
         argv = ["unshare", "-rm", "sh", "-c",
-                'mount -t tmpfs -o size=%dk tmpfs "$0" && cd "$0" || exit 97; "$@"; rc=$?; cp -r . "$0/../saved"; exit $rc' % tmpfs_kb,
+                'mount -t tmpfs -o size=%dk tmpfs "$0" && cd "$0" || exit 97; %s"$@"; rc=$?; rm -f .filler; cp -r . "$0/../saved"; exit $rc'
+                % (tmpfs_kb, "head -c %d /dev/zero > .filler 2>/dev/null; " % (tmpfs_kb * 1024) if tmpfs_fill else ""),
                 cwd] + argv
         cwd_removed = False
     elif cwd_removed:
@@ -171,6 +173,217 @@ def build_shim(base):
         raise RuntimeError("cannot build harness/faultio.c: " + err[-1000:])
     return so
 
+
+# ------------------------------------------------------------------------------------------------
+# no fault at all: are the requested outputs there, under the requested names, and fresh?
+# ------------------------------------------------------------------------------------------------
+FRESH = PROGRAMS["hello"].replace('"fact "', '"MARK fresh "')
+STALE = PROGRAMS["hello"].replace('"fact "', '"MARK stale "').replace("f 10", "f 9")
+PK = ["ai", "ap", "asy", "ao", "fm", "lsp", "c", "java", "main", "o", "x"]        # output kinds; "run" = -Grun
+REQNAME = {"ai": "n_ai.ai", "ap": "n_ap.ap", "asy": "n_asy.asy", "ao": "n_ao.ao", "fm": "n_fm.fm", "lsp": "n_lsp.lsp",
+           "c": "n_c.c", "o": "n_o.o", "x": "n_x", "main": "n_main.c"}      # -Fjava=<fn> is not a documented form
+OPAQUE = ("o", "x")     # object code: compared by existence/size and, for the executable, by running it
+
+def _norm(rel, data):
+    if rel.endswith(".java"):
+        return b"\n".join(sorted(data.split(b"\n")))
+    return data
+
+def _snapshot(d, skip):
+    out = {}
+    for root, _, files in os.walk(d):
+        for f in files:
+            p = os.path.join(root, f); rel = os.path.relpath(p, d)
+            if rel in skip: continue
+            try:
+                data = open(p, "rb").read()
+            except OSError:
+                data = b"<unreadable>"
+            out[rel] = (hashlib.sha256(_norm(rel, data)).hexdigest()[:16], len(data))
+    return out
+
+def present_run(cmd, base, text, flags, prep=None, as_nobody=False, tmo=120):
+    d = tempfile.mkdtemp(dir=base)
+    os.chmod(d, 0o777)
+    open(os.path.join(d, "prog.as"), "w").write(text)
+    os.chmod(os.path.join(d, "prog.as"), 0o644)
+    before = {}
+    if prep:
+        prep(d)
+        before = _snapshot(d, ("prog.as",))
+    def demote():
+        os.setgid(65534); os.setuid(65534)
+    try:
+        p = subprocess.Popen(cmd + flags + ["prog.as"], cwd=d, stdout=subprocess.PIPE, stderr=subprocess.PIPE,
+                             start_new_session=True, preexec_fn=demote if as_nobody else None)
+        try:
+            out, err = p.communicate(timeout=tmo); rc = p.returncode
+        except subprocess.TimeoutExpired:
+            try: os.killpg(p.pid, 9)
+            except OSError: pass
+            out, err = p.communicate(); rc = "TIMEOUT"
+    except Exception as ex:
+        rc, out, err = "EXC", b"", repr(ex).encode()
+    after = _snapshot(d, ("prog.as",))
+    exe_out = {}
+    for rel in after:
+        q = os.path.join(d, rel)
+        if (rel == "prog" or rel == REQNAME["x"]) and os.access(q, os.X_OK):
+            try:
+                r = subprocess.run([q], cwd=d, capture_output=True, timeout=30)
+                exe_out[rel] = r.stdout.decode("latin1")
+            except Exception as ex:
+                exe_out[rel] = "cannot run: %r" % ex
+    shutil.rmtree(d, ignore_errors=True)
+    return rc, (out + err).decode("latin1"), before, after, exe_out
+
+def run_present_matrix(ctx, build, base, cmd):
+    from vlib import aldor as valdor
+    thorough = ctx.tier == "thorough"
+    rng = ctx.rng
+    ccmd = cmd + valdor.c_opts(build)
+    flag = lambda k, named=False: ("-Grun" if k == "run" else "-F" + k + ("=" + REQNAME[k] if named and k in REQNAME else ""))
+    # 1. every kind alone in a clean directory: the reference files (fresh program) and the stale files (old program)
+    ref, stale = {}, {}
+    def alone(k_text):
+        k, text = k_text
+        return k_text, present_run(ccmd, base, text, [flag(k)])
+    with ThreadPoolExecutor(16) as ex:
+        for (k, text), r in ex.map(alone, [(k, t) for k in PK for t in (FRESH, STALE)]):
+            rc, txt, _, after, exe_out = r
+            if rc != 0 or not after:
+                ctx.violation("emit|present|reference|" + k, "-F%s alone in a clean directory fails or writes nothing: rc=%s %s" % (k, rc, txt[-300:]),
+                              {"kind": "setup", "flag": k, "rc": rc, "output": txt[-1000:]})
+                return
+            (ref if text is FRESH else stale)[k] = after
+    default_names = {k: sorted(ref[k]) for k in PK}
+    # documented by-product: with -Fo/-Fx/-Grun the generated main file is compiled too (prog-aldormain.o)
+    all_known = {n for k in PK for n in default_names[k]} | set(REQNAME.values()) | {"prog-aldormain.o"}
+    # the stale directory contents need the bytes: run once more keeping files (cheap) ------------
+    stale_dir = tempfile.mkdtemp(dir=base)
+    open(os.path.join(stale_dir, "prog.as"), "w").write(STALE)
+    rc, out, err = common.run(ccmd + [flag(k) for k in PK] + ["prog.as"], cwd=stale_dir, timeout=300)
+    stale_files = {}
+    for root, _, files in os.walk(stale_dir):
+        for f in files:
+            rel = os.path.relpath(os.path.join(root, f), stale_dir)
+            if rel != "prog.as":
+                stale_files[rel] = (open(os.path.join(root, f), "rb").read(), os.stat(os.path.join(root, f)).st_mode & 0o777)
+    kind_of_name = {n: k for k in PK for n in default_names[k]}
+    missing_stale = [k for k in PK if not all(n in stale_files for n in default_names[k])]
+    if rc != 0 or missing_stale:
+        # all outputs requested at once in a clean directory: itself a cell of the matrix
+        ctx.finding("emit|present|all-at-once|" + ",".join(missing_stale or ["rc"]),
+                    "all output kinds requested at once (%s) in a clean directory: rc=%s, missing %s; %s" %
+                    (" ".join(flag(k) for k in PK), rc, missing_stale, (out + err)[-300:]),
+                    {"kind": "present-matrix", "flags": [flag(k) for k in PK], "rc": rc, "missing": missing_stale})
+    def prep_for(state, named, kinds):
+        """populate a directory with stale outputs; returns the preparation function"""
+        if state == "clean": return None
+        what = state.split("-", 1)[1]
+        def prep(d):
+            for rel, (data, mode) in stale_files.items():
+                k = kind_of_name.get(rel)
+                if what != "all" and k != what: continue
+                targets = [rel]
+                if named and k in REQNAME and k in kinds: targets.append(REQNAME[k])
+                for t in targets:
+                    q = os.path.join(d, t)
+                    os.makedirs(os.path.dirname(q), exist_ok=True)
+                    open(q, "wb").write(data)
+                    os.chmod(q, 0o444 if state.startswith("readonly") else (mode | 0o666))
+            for root, dirs, _ in os.walk(d):
+                for x in dirs: os.chmod(os.path.join(root, x), 0o777)
+        return prep
+    # 2. the cells
+    kinds_all = PK + ["run"]
+    combos = [(k,) for k in kinds_all]
+    combos += [(a, b) for i, a in enumerate(kinds_all) for b in kinds_all[i + 1:]]
+    combos += [("c", "o", "x"), ("c", "x", "run"), ("c", "o", "run"), ("ao", "c", "o"), ("fm", "c", "x"), ("main", "c", "x"),
+               ("main", "o", "run"), ("ao", "fm", "lsp"), ("c", "main", "o"), ("o", "x", "run"), ("ai", "c", "x")]
+    cstates = ["stale-o", "stale-c", "stale-ao", "stale-fm", "stale-x", "readonly-c", "readonly-o", "readonly-ao"]
+    cells = []
+    for combo in combos:
+        heavy = any(k in ("c", "o", "x", "run", "main") for k in combo)
+        states = ["clean", "stale-all"]
+        if heavy and (thorough or len(combo) <= 2 or True):
+            states += cstates if (thorough or len(combo) >= 2) else ["stale-o", "readonly-c"]
+        elif thorough:
+            states += ["stale-ao", "stale-fm", "readonly-ao"]
+        for st in states:
+            for named in (False, True):
+                if named and not any(k in REQNAME for k in combo): continue
+                if named and not thorough and st not in ("clean", "stale-all", "stale-o", "readonly-c"): continue
+                cells.append((combo, st, named))
+    # (no sampling: the grid is the same for every seed, so that the set of problem classes is stable)
+    root_user = (os.geteuid() == 0)
+    if root_user:
+        # read-only files mean nothing to root: those cells run as `nobody`, which must be able to reach the compiler
+        try:
+            os.chmod(build.top, 0o755)
+        except OSError:
+            pass
+    def cell(c):
+        combo, st, named = c
+        flags = [flag(k, named) for k in combo]
+        return c, present_run(ccmd, base, FRESH, flags, prep=prep_for(st, named, combo),
+                              as_nobody=root_user and st.startswith("readonly"))
+    hist = {}
+    problems = {}
+    with ThreadPoolExecutor(16) as ex:
+        for (combo, st, named), r in ex.map(cell, cells):
+            rc, txt, before, after, exe_out = r
+            probs = []
+            if rc == "TIMEOUT": probs.append(("hang", "-"))
+            elif rc == "EXC": probs.append(("cannot-run", "-"))
+            elif isinstance(rc, int) and (rc < 0 or rc >= 128 or "Program fault" in txt or "Compiler bug" in txt): probs.append(("crash", "-"))
+            elif rc != 0:
+                if not txt.strip(): probs.append(("silent-failure", "-"))
+            else:
+                for k in combo:
+                    if k == "run":
+                        if "MARK fresh 3628800" not in txt: probs.append(("run-output-missing", k))
+                        continue
+                    names = [REQNAME[k]] if (named and k in REQNAME) else default_names[k]
+                    for n, dn in zip(names, default_names[k]):
+                        if n not in after: probs.append(("missing", k)); continue
+                        h, size = after[n]
+                        if size == 0: probs.append(("empty", k)); continue
+                        if before.get(n) == after[n] and stale[k].get(dn, (None,))[0] == h and ref[k][dn][0] != h:
+                            probs.append(("stale", k)); continue
+                        if k in OPAQUE:
+                            if k == "x" and "MARK fresh 3628800" not in exe_out.get(n, ""):
+                                probs.append(("stale" if "MARK stale" in exe_out.get(n, "") else "exe-does-not-run", k))
+                        elif h != ref[k][dn][0]:
+                            probs.append(("stale" if h == stale[k].get(dn, (None,))[0] else "differs", k))
+                left = sorted(n for n in after if n not in before and n not in all_known)
+                if left: probs.append(("leftover:" + re.sub(r"^pr[0-9A-Za-z]{6}\.", "prNNNNNN.", left[0]), "-"))
+            stc = st.split("-")[0]
+            outcome = "ok" if not probs and rc == 0 else "reported" if not probs else "PROBLEM"
+            hist.setdefault(stc + ("/named" if named else ""), {}).setdefault(outcome, 0)
+            hist[stc + ("/named" if named else "")][outcome] += 1
+            for (prob, k) in probs:
+                key = (prob, k, "named" if named else "default")
+                problems.setdefault(key, []).append((combo, st, named, rc, txt, sorted(after), sorted(before)))
+    for (prob, k, nm), exs in sorted(problems.items()):
+        combo, st, named, rc, txt, after, before = exs[0]
+        flags = [flag(x, named) for x in combo]
+        ctx.finding("emit|present|%s|%s|%s" % (prob, k, nm),
+                    "no fault injected, yet %s for output kind %s (%s name) in a %s directory: aldor %s prog.as -> exit status %s, files afterwards %s "
+                    "(before: %s); %d cell(s), e.g. also %s; output: %r" %
+                    (prob, k, nm, st, " ".join(flags), rc, after, before, len(exs),
+                     ["%s in %s" % (" ".join(flag(x, n2) for x in c2), s2) for (c2, s2, n2, *_r) in exs[1:4]], txt[-200:]),
+                    {"kind": "present-matrix", "program": FRESH, "stale_program": STALE, "flags": flags, "directory": st, "rc": rc,
+                     "files_after": after, "files_before": before, "output": txt[-600:], "cells": len(exs),
+                     "how": "stale directories hold the outputs of `aldor <all -F kinds> prog.as` for the stale program; "
+                            "read-only cells run as uid 65534 when the check runs as root"})
+    ctx.cov["emit_present"] = {"cells": len(cells), "by_directory": hist, "problems": sorted("%s|%s|%s" % k for k in problems),
+                               "default_names": default_names,
+                               "rule": "every kind alone, every pair of %s, eleven triples x {clean, stale outputs of all kinds, stale .o/.c/.ao/.fm/executable "
+                                       "alone, read-only stale .c/.o/.ao} x {default names, -F<kind>=<name>}; quick: at most 900 cells" % kinds_all}
+    ctx.cov["evaluations"] += len(cells) + 2 * len(PK)
+    shutil.rmtree(stale_dir, ignore_errors=True)
+
 def run_part(ctx, build):
     site_report(ctx, build)
     thorough = ctx.tier == "thorough"
@@ -244,6 +457,9 @@ def run_part(ctx, build):
         if have_tmpfs and size > 4096:
             # the same on a real file system: a tmpfs of about half the intact size (whole 4 KiB pages)
             fjobs.append((prog, k, "tmpfs-mid", ["-F" + k], None, None, ("tmpfs", 4 * max(1, size // 2 // 4096))))
+        if have_tmpfs:
+            # no byte free at all on the device that holds the working directory (for -Fjava: aldorcode/ is on it)
+            fjobs.append((prog, k, "tmpfs-full", ["-F" + k], None, None, ("tmpfs", 4, True)))
         if ops["flush"] >= 1:
             fl = ops["flush"]
             for nm, n in sorted({("flush-first", 1), ("flush-mid", max(1, fl // 2)), ("flush-last", fl)}):
@@ -276,7 +492,7 @@ def run_part(ctx, build):
                 # the redirected output can never be complete, unless `=name` was not honoured and the
                 # default file was written in full
                 complete = all(files.get(f) == h for f, h in want.items())
-            elif fault == "isdir" or fault == "nodir":
+            elif fault == "isdir" or fault == "nodir" or fault == "tmpfs-full":
                 complete = False
             else:
                 complete = all(files.get(f) == h for f, h in want.items())
@@ -311,7 +527,8 @@ def run_part(ctx, build):
                            "rule": "kinds %s x programs %s x {target /dev/full, target is a directory, working directory removed, "
                                    "n-th fclose, first/middle/last (thorough: random) write call, sticky write failure, fflush (ao), "
                                    "device full beyond half / all but the last byte of the file with rewrites of the beginning succeeding "
-                                   "(shim `space`, and a real half-size tmpfs in a private mount namespace)} "
+                                   "(shim `space`, and a real half-size tmpfs in a private mount namespace), a tmpfs with no byte free} "
                                    "+ four outputs at once with the fault on each in turn" % (KINDS, progs)}
     ctx.cov["evaluations"] += len(fjobs) + 2 * len(jobs)
     ctx.cov["distinct_nontrivial"] += sum(len(v) for v in hist.values())
+    run_present_matrix(ctx, build, base, cmd)
